@@ -10,17 +10,18 @@ SPEC = {
     "trusted_base": [
         "Coq 8.16.1 kernel",
         "harness/cmd/nodedbcrash + go/storage/mkvs/db/api/verifhook (verif-tagged crash points) + the one-line CrashPoint calls of hooks/c07-crashpoints.diff; child processes die with os.Exit(137) between durable writes, the OS page cache survives (NoFsync semantics of the consensus layer)",
-        "no Coq crash model yet beyond the Commit data-flush step (NodeDB/Crash.v not delivered): the property is decided by fault injection on the real code only",
+        "vm_compute evaluation of Verif.NodeDB.Crash (step lists, run_until, reopen, retry) on every (history, crash point) pair of the badger backend: predicts earliest/latest, the status of every known root after reopen, the class of the retry and the state after it",
+        "pathbadger has no Coq model: its crash cases are decided by the harness oracle only (twin comparison)",
     ],
     "assumptions": [
         "granularity: crashes between successive durable writes (batch flushes / metadata commits), not inside a Badger flush",
         "the version an interrupted Prune targets is not required to be readable after the crash",
-        "checkpoint chunk restore / multipart insert is not exercised yet",
+        "badger theorems: a WriteBatch.Flush and a metadata CommitAt are each one atomic durable step (Crash.v header cites the lines)",
     ],
 }
 
 MANIFEST = {
-    "technique": "fault injection at every enumerated crash point of the real node database (child process killed between durable writes, reopen, full read-back, retry, comparison with an uninterrupted twin run) plus a first Coq lemma for the Commit write ordering",
-    "level_text": "Partial: for Commit, Finalize and Prune on both backends every crash point the operation passes is exercised on seeded in-domain histories; the Coq side only proves that a crash after Commit's node-batch flush keeps every listed root readable in the badger model.",
-    "level_note": "Not a proof of crash safety: Crash.v (step lists, reopen, retry) is not written; multipart restore not exercised.",
+    "technique": "Coq proof over a step-list model of the badger backend (operations as lists of atomic durable steps, run_until/reopen/retry; crash safety of Commit and Finalize for every state reachable by a safe history, refutation witness for Prune's ordering and proof for the repaired retry) with fault injection at every enumerated crash point of the real node database (child process killed between durable writes, reopen, full read-back, retry, comparison with an uninterrupted twin run and with the model)",
+    "level_text": "Theorems in coq/Props/C07.v: for every state reachable by an in-domain safe history and every crash strictly inside Commit or Finalize, every previously listed/finalized root stays readable and the retry reaches a state observationally equal to the uninterrupted one; the faithful port of Prune is refuted (retry fails with root-not-found forever) and the repaired retry (skip lone roots whose root-node key is gone) is proved safe. The step lists are tied to the code by killing the real database at every crash point the hook enumerates and comparing reopen/retry observations with the model (badger) and with an uninterrupted twin (both backends).",
+    "level_note": "Trusted: Coq kernel; harness + verifhook crash points; atomicity of a batch flush / metadata commit; pathbadger by test only; multipart restore covered by the harness oracle only (no Coq model).",
 }
